@@ -566,8 +566,11 @@ func (ex *Exec) callFunction(st *State, fn *ssa.Function, args []Value, site ssa
 	}
 	name := fn.String()
 	if ov, ok := ex.overrides[name]; ok && ov != fn {
-		fn = ov
-		name = fn.String()
+		// a stub may call the function it replaces (the call from inside the stub reaches the real body)
+		if n := len(ex.ctx); n == 0 || ex.ctx[n-1] != ov.String() {
+			fn = ov
+			name = fn.String()
+		}
 	}
 	if f, ok := lookupIntrinsic(fn); ok {
 		return f(ex, st, fn, args, site)
